@@ -738,3 +738,105 @@ def rule_stateless(chk):
                             offenders.append(unparse(n)[:40])
         chk.req(not offenders, "%s.state" % chk.pid, "%s:stateless" % f.fq, chk.where(f), good="keeps no state between calls",
                 fail="%s now keeps state between calls (%s): its answer can depend on earlier calls (stale cache, cross-talk between threads)" % (f.fq, offenders[:3]))
+
+
+def dict_layers(e):
+    """The value of a dict-building expression as an ordered list of layers, later layers overriding earlier ones:
+    ("key", key-expr, value-expr) for one item, ("src", expr) for everything taken from another mapping.
+    None when the expression is not a recognised dict construction (a bare call / name is one "src" layer)."""
+    if isinstance(e, ast.Dict):
+        out = []
+        for k, v in zip(e.keys, e.values):
+            if k is None:
+                sub = dict_layers(v)
+                out += sub if sub is not None else [("src", v)]
+            else:
+                out.append(("key", k, v))
+        return out
+    if isinstance(e, ast.Call) and isinstance(e.func, ast.Name) and e.func.id == "dict":
+        out = []
+        if len(e.args) > 1:
+            return None
+        for a in e.args:
+            sub = dict_layers(a)
+            out += sub if sub is not None else [("src", a)]
+        for k in e.keywords:
+            if k.arg is None:
+                sub = dict_layers(k.value)
+                out += sub if sub is not None else [("src", k.value)]
+            else:
+                out.append(("key", ast.copy_location(ast.Constant(value=k.arg), k.value), k.value))
+        return out
+    if isinstance(e, ast.Call) and isinstance(e.func, ast.Attribute) and e.func.attr == "copy" and not e.args and not e.keywords:
+        return [("src", e.func.value)]
+    if isinstance(e, ast.BinOp) and isinstance(e.op, ast.BitOr):
+        a, b = dict_layers(e.left), dict_layers(e.right)
+        return (a if a is not None else [("src", e.left)]) + (b if b is not None else [("src", e.right)])
+    if isinstance(e, (ast.Call, ast.Name, ast.Attribute)):
+        return [("src", e)]
+    return None
+
+
+def dict_events(func, cfg, var):
+    """[(cfg node, layers, rebinding?)] for every statement that builds or extends the dict held in local `var`:
+    `var = <dict construction>`, `var[k] = v`, `var.update(...)`, `var |= ...`.  Any other statement that stores to or
+    calls a mutating method on `var` makes the shape unmodelled (AnalysisError)."""
+    out = []
+    for n in cfg.live:
+        a = n.ast
+        if isinstance(a, ast.Assign) and n.kind not in ("test",):
+            for t in a.targets:
+                if isinstance(t, ast.Name) and t.id == var:
+                    lay = dict_layers(a.value)
+                    if lay is None:
+                        raise AnalysisError("%s: `%s` is bound to %s, not a recognised dict construction" % (func.fq, var, unparse(a.value)[:60]))
+                    out.append((n, lay, True))
+                elif isinstance(t, ast.Subscript) and isinstance(t.value, ast.Name) and t.value.id == var:
+                    out.append((n, [("key", t.slice, a.value)], False))
+                elif any(isinstance(x, ast.Name) and x.id == var and isinstance(x.ctx, ast.Store) for x in ast.walk(t)):
+                    raise AnalysisError("%s: `%s` is bound by an unpacking assignment" % (func.fq, var))
+        elif isinstance(a, ast.AugAssign) and isinstance(a.target, ast.Name) and a.target.id == var:
+            if not isinstance(a.op, ast.BitOr):
+                raise AnalysisError("%s: `%s` is updated with an operator other than |=" % (func.fq, var))
+            lay = dict_layers(a.value)
+            out.append((n, lay if lay is not None else [("src", a.value)], False))
+        elif isinstance(a, ast.Expr) and isinstance(a.value, ast.Call) and isinstance(a.value.func, ast.Attribute) \
+                and isinstance(a.value.func.value, ast.Name) and a.value.func.value.id == var:
+            c = a.value
+            if c.func.attr == "update":
+                lay = []
+                for x in c.args:
+                    sub = dict_layers(x)
+                    lay += sub if sub is not None else [("src", x)]
+                for k in c.keywords:
+                    if k.arg is None:
+                        lay.append(("src", k.value))
+                    else:
+                        lay.append(("key", ast.copy_location(ast.Constant(value=k.arg), k.value), k.value))
+                out.append((n, lay, False))
+            elif c.func.attr == "setdefault" and len(c.args) == 2:
+                out.append((n, [("default", c.args[0], c.args[1])], False))
+            elif c.func.attr in ("pop", "clear", "popitem", "__setitem__", "__delitem__"):
+                raise AnalysisError("%s: `%s.%s(...)` is not modelled" % (func.fq, var, c.func.attr))
+        elif isinstance(a, ast.Delete) and any(isinstance(x, ast.Name) and x.id == var for t in a.targets for x in ast.walk(t)):
+            raise AnalysisError("%s: items of `%s` are deleted" % (func.fq, var))
+    return out
+
+
+def cfg_order(cfg):
+    """node -> position in a reverse post-order of the flow graph from its entry (a statement precedes the
+    statements it flows into, whatever line numbers normalisation or inlining left on them)."""
+    seen, post = set(), []
+    stack = [(cfg.entry, iter([s for s, _l in cfg.entry.succ]))]
+    seen.add(cfg.entry)
+    while stack:
+        node, it = stack[-1]
+        for nx in it:
+            if nx not in seen:
+                seen.add(nx)
+                stack.append((nx, iter([s for s, _l in nx.succ])))
+                break
+        else:
+            post.append(node)
+            stack.pop()
+    return {n: i for i, n in enumerate(reversed(post))}
